@@ -275,6 +275,15 @@ Definition write (nm : naive_mode) (ym : year_mode) (p : precision) (c : pconstr
   | Raise e => Raise e
   end.
 
+(* the same when the STIXdatetime loses its precision attributes between cleaning and writing (a copy
+   that rebuilds it with other attributes p', c'): the fields adjusted at (p, c) are written at (p', c') *)
+Definition write_as (nm : naive_mode) (ym : year_mode) (p : precision) (c : pconstraint) (p' : precision) (c' : pconstraint)
+                    (v : tsinput) : result ustring :=
+  match parse_into nm p c v with
+  | Ok (l, o) => format_dt ym p' c' l o
+  | Raise e => Raise e
+  end.
+
 (* ---- rendering of results for the correspondence run ---- *)
 Open Scope string_scope.
 Definition show_optZ (o : option Z) : string :=
